@@ -1,4 +1,6 @@
 """C08 - Every UDP datagram's destination passes the outbound policy (DESIGN.md section 4, C08)."""
+import re
+
 from vlib import common
 
 GO = dict(module="core", pkg="server", pkgname="server",
@@ -22,7 +24,7 @@ TRUSTED = ["modelled rather than verified: udpSessionEntry.Feed/checkAddr/initCo
            "(hand transcription in coq/model/C08_UDPPolicy.v); the extras/outbounds ACL engine + PluggableOutboundAdapter are not modelled: "
            "a second harness stream checks on generated rule sets that CheckUDP(addr)==nil iff UDP(addr) succeeds with identical routing"]
 PER_SHARD = 25
-EXTRA_TARGETS = ["corr/C08_Corr.vo"]
+EXTRA_TARGETS = ["corr/C08_Corr.vo", "corr/C08_Adapter_Corr.vo"]
 POOL = 401
 
 
@@ -236,9 +238,287 @@ def gen_acl(rng, tier):
     return cases
 
 
+# ---- pipeline class "resolve": resolver stage (static table) -> ACL engine -> fake outbounds.  Destinations are host
+# names that resolve (v4 / v6 / both / neither / lookup error) into, next to, or at the edge of the CIDR and IP rules.
+# The generator evaluates its own rules first-match (python ipaddress) and ships the verdict with every address.
+R_NAMES = ["int.corp.example", "db.corp.example", "www.example.com", "cdn.example.net", "v6only.example.org",
+           "dual.example.org", "nx.example.org", "blocked.example", "mail.example.com", "a.b.example.net"]
+R_NETS4 = ["10.0.0.0/8", "192.168.0.0/16", "172.16.0.0/12", "100.64.0.0/10", "203.0.113.0/24", "198.51.100.128/25", "0.0.0.0/0"]
+R_NETS6 = ["fd00::/8", "2001:db8::/32", "fe80::/10", "2001:db8:aa::/48", "::/0"]
+R_PP = ["", "", "", "udp", "tcp", "udp/53", "*/53", "udp/1-1000", "tcp/443", "*", "udp/1001-65535", "*/*"]
+
+
+def _parse_pp(pp):
+    """-> (protocols matching: set of 'tcp','udp'), start, end"""
+    if pp in ("", "*", "*/*"):
+        return {"tcp", "udp"}, 0, 65535
+    parts = pp.split("/", 1)
+    pr = {"tcp", "udp"} if parts[0] == "*" else {parts[0]}
+    if len(parts) == 1 or parts[1] == "*":
+        return pr, 0, 65535
+    if "-" in parts[1]:
+        a, b = parts[1].split("-")
+        return pr, int(a), int(b)
+    return pr, int(parts[1]), int(parts[1])
+
+
+def _rand_in(rng, net, edge):
+    import ipaddress
+    n = ipaddress.ip_network(net)
+    if n.prefixlen == 0:
+        off = rng.randrange(1, 2 ** 24)
+    elif edge:
+        off = rng.choice([0, n.num_addresses - 1])
+    else:
+        off = rng.randrange(n.num_addresses)
+    return n.network_address + off
+
+
+def _rand_out(rng, net):
+    import ipaddress
+    n = ipaddress.ip_network(net)
+    if n.prefixlen == 0:
+        return None
+    # just below / just above the block, or far away
+    cands = []
+    lo, hi = int(n.network_address), int(n.broadcast_address)
+    mx = 2 ** n.max_prefixlen - 1
+    if lo > 0:
+        cands.append(lo - 1)
+    if hi < mx:
+        cands.append(hi + 1)
+    cands.append(lo ^ (1 << (n.max_prefixlen - 1)))
+    return n.network_address.__class__(rng.choice(cands))
+
+
+def acl_first_match(rules, obs, allow, name, v4, v6, port):
+    """python reference of RuleSet.Match + aclEngine default for one UDP query. rules: (ob, kind, pat, pp).
+    Returns True (allowed) / False (refused)."""
+    import ipaddress
+    verdict = dict(zip(obs, allow))
+    verdict["reject"] = False
+    verdict["default"] = allow[0]
+    for ob, kind, pat, pp in rules:
+        pr, sp, ep = _parse_pp(pp)
+        if "udp" not in pr or not (sp <= port <= ep):
+            continue
+        if kind == "all":
+            hit = True
+        elif kind == "cidr":
+            n = ipaddress.ip_network(pat)
+            hit = any(x is not None and x.version == n.version and x in n for x in (v4, v6))
+        elif kind == "ip":
+            a = ipaddress.ip_address(pat)
+            hit = any(x is not None and x == a for x in (v4, v6))
+        elif kind == "exact":
+            hit = name == pat
+        else:  # suffix
+            hit = name == pat or name.endswith("." + pat)
+        if hit:
+            return verdict[ob]
+    return allow[0]   # no rule matched: the default outbound = the first in the list
+
+
+def gen_acl_resolve(rng, n):
+    import ipaddress
+    cases = []
+    for ci in range(n):
+        nob = rng.randint(1, 3)
+        obs = ["ob%d" % j for j in range(nob)]
+        allow = [rng.random() < 0.7 for _ in obs]
+        if ci % 3 == 0:
+            allow[0] = True      # the default outbound accepts: a rule that is skipped means "allowed"
+        nets = rng.sample(R_NETS4, rng.randint(1, 2)) + rng.sample(R_NETS6, rng.randint(0, 2))
+        names = rng.sample(R_NAMES, rng.randint(4, 7))
+        table = {}
+        ips = []
+        for nm in names:
+            k = rng.random()
+            v4 = v6 = None
+            n4 = [x for x in nets if ":" not in x]
+            n6 = [x for x in nets if ":" in x]
+
+            def pick(nl, fallback):
+                net = rng.choice(nl) if nl else fallback
+                r = rng.random()
+                if r < 0.55:
+                    return _rand_in(rng, net, edge=rng.random() < 0.3)
+                return _rand_out(rng, net) or _rand_in(rng, net, False)
+            if k < 0.08:
+                continue                                   # lookup error
+            if k < 0.14:
+                table[nm] = ["", ""]                       # resolves to nothing
+                continue
+            if k < 0.55 or not n6 and k < 0.7:
+                v4 = pick(n4, "10.0.0.0/8")
+            elif k < 0.72:
+                v6 = pick(n6, "fd00::/8")
+            else:
+                v4, v6 = pick(n4, "10.0.0.0/8"), pick(n6, "fd00::/8")
+            table[nm] = [str(v4) if v4 is not None else "", str(v6) if v6 is not None else ""]
+            ips += [x for x in (v4, v6) if x is not None]
+        rules = []
+        for _ in range(rng.randint(1, 6)):
+            ob = rng.choice(obs + ["reject", "reject", "default"])
+            r = rng.random()
+            if r < 0.45:
+                kind, pat = "cidr", rng.choice(nets)
+            elif r < 0.65 and ips:
+                kind, pat = "ip", str(rng.choice(ips))
+            elif r < 0.75:
+                kind, pat = "exact", rng.choice(names)
+            elif r < 0.85:
+                kind, pat = "suffix", rng.choice(["example.com", "corp.example", "example.org", "example.net", "example"])
+            elif r < 0.92:
+                kind, pat = "ip", str(_rand_in(rng, rng.choice(nets), False))
+            else:
+                kind, pat = "all", "all"
+            rules.append((ob, kind, pat, rng.choice(R_PP)))
+        if rng.random() < 0.6:
+            rules.append((rng.choice(obs + ["reject"]), "all", "all", ""))
+        lines, rf = [], []
+        for ob, kind, pat, pp in rules:
+            ptxt = ("suffix:" + pat) if kind == "suffix" else pat
+            hj = ""
+            if pp and rng.random() < 0.2:
+                hj = rng.choice(["9.9.9.9", "2001:db8::9"])
+            lines.append("%s(%s%s%s)" % (ob, ptxt, ", " + pp if pp else "", ", " + hj if hj else ""))
+            rf.append([ob, ptxt, pp, hj])
+        hosts = list(names) + [nm for nm in R_NAMES if nm not in names][:1]
+        lits = [str(x) for x in ips[:3]] + [str(_rand_in(rng, rng.choice(nets), False))]
+        addrs, expect, order, qhosts = [], [], [], []
+        for _ in range(14):
+            port = rng.choice([53, 53, 443, 1000, 1001, 0, 65535])
+            if rng.random() < 0.75:
+                h = rng.choice(hosts)
+                e = table.get(h)
+                v4 = ipaddress.ip_address(e[0]) if e and e[0] else None
+                v6 = ipaddress.ip_address(e[1]) if e and e[1] else None
+                a = "%s:%d" % (h, port)
+            else:
+                h = rng.choice(lits)
+                x = ipaddress.ip_address(h)
+                v4, v6 = (x, None) if x.version == 4 else (None, x)
+                a = ("%s:%d" if x.version == 4 else "[%s]:%d") % (h, port)
+            addrs.append(a)
+            qhosts.append([h, port])
+            expect.append(1 if acl_first_match(rules, obs, allow, h, v4, v6, port) else 0)
+            order.append(rng.randrange(4))
+        cases.append({"rules": "\n".join(lines), "obs": obs, "allow": allow, "addrs": addrs, "resolve": table,
+                      "expect": expect, "order": order, "rf": rf, "qhosts": qhosts})
+    return cases
+
+
+# ---- third stream: sessions through the real udpSessionManager.feed with the pipeline (resolver -> ACL -> outbounds,
+# behind PluggableOutboundAdapter) as the outbound; the first destination of a session is mostly an allowed one, the
+# later ones mix allowed / refused-by-name / refused-by-resolved-address destinations
+GO_CHAIN = dict(module="core", pkg="server", pkgname="server",
+                files={"zz_verif_udpenv_test.go": "c07/udpenv_test.go", "zz_verif_c08chain_test.go": "c08/c08chain_test.go",
+                       "zz_verif_c08chainx_test.go": "c08/c08chainx_test.go"},
+                run="TestVerifC08Chain")
+
+
+def gen_chain(rng, n):
+    cases = []
+    for c in gen_acl_resolve(rng, n):
+        dsts, expect = [], []
+        for a, e in zip(c["addrs"], c["expect"]):
+            if a not in dsts:
+                dsts.append(a)
+                expect.append(e)
+        ok_i = [i for i, e in enumerate(expect) if e == 1]
+        ops = []
+        fresh = True
+        for _ in range(rng.randint(6, 40)):
+            if not fresh and rng.random() < 0.06:
+                ops.append([2])
+                fresh = True
+                continue
+            if fresh and ok_i and rng.random() < 0.85:
+                ops.append([0, rng.choice(ok_i)])
+            else:
+                ops.append([0, rng.randrange(len(dsts))])
+            fresh = False
+        cases.append({"spec": {"rules": c["rules"], "obs": c["obs"], "allow": c["allow"], "resolve": c["resolve"]},
+                      "dsts": dsts, "expect": expect, "ops": ops})
+    return cases
+
+
+def run_chain_stream(ctx):
+    import random
+    cases = gen_chain(random.Random(ctx.seed + 888), 60 if ctx.tier == "quick" else 900)
+    ok, outs, _, log = common.run_go_cases(ctx, GO_CHAIN, cases, tag="chain")
+    viol = []
+    if not ok:
+        ctx.say("Go harness (pipeline sessions) failed:\n" + log[-2000:])
+        viol.append({"what": "tie broken: pipeline-session harness for C08 did not build/run against the current tree (%s)" % log.strip()[-300:],
+                     "replay": {"broken": "go harness (pipeline sessions)", "log": log[-3000:]}, "found_input": False, "fingerprint": None})
+    seen_why = set()
+    fwd = drop = 0
+    for c, o in zip(cases, outs):
+        for st in o.get("steps") or []:
+            if st:
+                fwd += st[0]
+                drop += 1 - min(st[0], 1)
+        if o.get("ok") is False:
+            k = re.sub(r"\d+", "N", re.sub(r'"[^"]*"', "Q", str(o.get("why")))).split(":")[0]
+            if k in seen_why:
+                continue
+            seen_why.add(k)
+            viol.append({"what": "pipeline session: %s" % o.get("why"), "replay": {"chain_case": c, "impl": o}, "fingerprint": None,
+                         "found_input": True})
+    ctx.say("pipeline sessions: %d sessions through udpSessionManager.feed, datagrams forwarded=%d not forwarded=%d" % (len(cases), fwd, drop))
+    return viol, {"evaluations": len(cases), "datagrams_forwarded": fwd, "datagrams_not_forwarded": drop}
+
+
+HEADER_PIPE = ("From Hy Require Import lib.Harness model.C09_ACL corr.C08_Adapter_Corr.\nFrom Coq Require Import ZArith.\n"
+               "Local Open Scope N_scope.\n")
+
+
+def _cb(x):
+    return common.coq_bytes(x if isinstance(x, (bytes, bytearray)) else x.encode("latin-1"))
+
+
+def _ipbytes(txt):
+    """what net.ParseIP returns: always the 16-byte form (IPv4 as v4-mapped)"""
+    import ipaddress
+    if not txt:
+        return b""
+    a = ipaddress.ip_address(txt)
+    return (bytes(10) + b"\xff\xff" + a.packed) if a.version == 4 else a.packed
+
+
+def pipe_to_coq(c, o):
+    """resolver-class case of the ACL stream as a CPipe term (None: nothing comparable was observed)"""
+    if c.get("resolve") is None or "routes" not in o or len(o["routes"]) != len(c["addrs"]):
+        return None
+    import ipaddress
+    tbl = {}
+    for h, _ in c["qhosts"]:
+        if h in tbl:
+            continue
+        try:
+            a = ipaddress.ip_address(h)
+            tbl[h] = (_ipbytes(h), b"") if a.version == 4 else (b"", _ipbytes(h))   # tryParseIP
+        except ValueError:
+            e = c["resolve"].get(h)
+            tbl[h] = (_ipbytes(e[0]), _ipbytes(e[1])) if e else (b"", b"")
+    entries = "[" + ";".join("(%s,%d)" % (_cb(n), i + 1) for i, n in enumerate(c["obs"])) + "]"
+    acc = "[" + ";".join(str(i + 1) for i, a in enumerate(c["allow"]) if a) + "]"
+    rules = "[" + ";".join("mkTRule %s %s %s %s" % tuple(_cb(x) for x in r) for r in c["rf"]) + "]"
+    t = "[" + ";".join("(%s,(%s,%s))" % (_cb(h), _cb(v[0]), _cb(v[1])) for h, v in tbl.items()) + "]"
+    qs = []
+    for (h, port), rt, v in zip(c["qhosts"], o["routes"], o["verdicts"]):
+        qs.append("(%s,%d,(%d,%s,%d,%s))" % (_cb(h), port, rt[0] or 1001, "true" if v & 1 else "false",
+                                             rt[1] or 1001, "true" if v & 2 else "false"))
+    return "CPipe %s %s %s %s [%s]" % (entries, acc, rules, t, ";".join(qs))
+
+
 def run_acl_stream(ctx):
     import random
-    cases = gen_acl(random.Random(ctx.seed + 8), ctx.tier)
+    rng = random.Random(ctx.seed + 8)
+    cases = gen_acl(rng, ctx.tier)
+    cases += gen_acl_resolve(random.Random(ctx.seed + 88), 60 if ctx.tier == "quick" else 900)
     ok, outs, _, log = common.run_go_cases(ctx, GO_ACL, cases, tag="acl")
     viol = []
     if not ok:
@@ -246,27 +526,71 @@ def run_acl_stream(ctx):
         viol.append({"what": "tie broken: ACL-stream harness for C08 did not build/run against the current tree (%s)" % log.strip()[-300:],
                      "replay": {"broken": "go harness (acl stream)", "log": log[-3000:]}, "found_input": False, "fingerprint": None})
     compiled = 0
+    seen_why = set()
     for c, o in zip(cases, outs):
         if "compile_error" not in o:
             compiled += 1
         if o.get("ok") is False:
+            # one replay per class of failure (quoted addresses, numbers and the routing detail stripped)
+            k = re.sub(r"\d+", "N", re.sub(r'"[^"]*"', "Q", str(o.get("why")))).split(":")[0]
+            if k in seen_why:
+                continue
+            seen_why.add(k)
             viol.append({"what": "acl adapter: %s" % o.get("why"), "replay": {"acl_case": c, "impl": o}, "fingerprint": None,
                          "found_input": True})
+    # the resolver pipelines against model/C08_Adapter.v (rule set compiled by the C09 model), evaluated in Coq
+    terms, tidx = [], []
+    for i, (c, o) in enumerate(zip(cases, outs)):
+        t = pipe_to_coq(c, o)
+        if t is not None:
+            terms.append(t)
+            tidx.append(i)
+    pipe_state = {"terms": terms, "idx": tidx, "cases": cases, "outs": outs}
     both = sum(1 for o in outs for v in o.get("verdicts", []) if v == 3)
     neither = sum(1 for o in outs for v in o.get("verdicts", []) if v == 0)
-    ctx.say("ACL stream: %d rule sets (%d compiled), address verdicts allowed=%d refused=%d" % (len(cases), compiled, both, neither))
-    return viol, {"evaluations": len(cases), "compiled": compiled, "addresses_allowed": both, "addresses_refused": neither}
+    res = [(c, o) for c, o in zip(cases, outs) if c.get("resolve") is not None]
+    # names (not IP literals) whose verdict is decided by the address they resolve to: refused / allowed
+    name_ref = sum(1 for c, o in res for a, e in zip(c["addrs"], c["expect"]) if e == 0 and a.rsplit(":", 1)[0] in c["resolve"])
+    name_all = sum(1 for c, o in res for a, e in zip(c["addrs"], c["expect"]) if e == 1 and a.rsplit(":", 1)[0] in c["resolve"])
+    ctx.say("ACL stream: %d rule sets (%d compiled), address verdicts allowed=%d refused=%d; resolver pipelines=%d "
+            "(resolved host names refused=%d allowed=%d)" % (len(cases), compiled, both, neither, len(res), name_ref, name_all))
+    return viol, {"evaluations": len(cases), "compiled": compiled, "addresses_allowed": both, "addresses_refused": neither,
+                  "resolver_pipelines": len(res), "resolved_names_refused": name_ref, "resolved_names_allowed": name_all}, pipe_state
+
+
+def eval_pipe(ctx, ps, impl_bad):
+    """after the proof stage built corr/C08_Adapter_Corr.vo: model vs implementation on the resolver pipelines"""
+    import time
+    t1 = time.time()
+    eok, mm, err = common.eval_cases(ctx, "pipe", HEADER_PIPE, ps["terms"], 30)
+    ctx.say("coq evaluation of %d resolver pipelines (adapter model): %.1fs, disagreements=%d" % (len(ps["terms"]), time.time() - t1, len(mm)))
+    viol = []
+    if not eok:
+        viol.append({"what": "no longer shown to hold: adapter correspondence evaluation (%s)" % err[:300],
+                     "replay": {"broken": "corr.C08_Adapter_Corr evaluation", "err": err[-2000:]}, "fingerprint": None, "found_input": False})
+    elif mm and not impl_bad:
+        # the model and the implementation disagree although the implementation-only verdict passed
+        dis = [{"acl_case": ps["cases"][ps["idx"][j]], "impl": ps["outs"][ps["idx"][j]]} for j in mm[:5]]
+        viol.append({"what": "no longer shown to hold: correspondence C08_Adapter_Corr on %d pipeline(s)" % len(mm),
+                     "replay": {"broken": "corr.C08_Adapter_Corr", "disagreeing_cases": dis}, "fingerprint": None, "found_input": False})
+    return viol, {"pipelines_validated_against_model": len(ps["terms"]), "model_impl_disagreements": len(mm)}
 
 
 def run(ctx):
     import sys
-    acl_viol, acl_cov = run_acl_stream(ctx)
+    acl_viol, acl_cov, pipe_state = run_acl_stream(ctx)
+    chain_viol, chain_cov = run_chain_stream(ctx)
     orig = common.finish
 
     def fin(ctx_, pinfo, cov, violations, assumptions, **kw):
         cov = dict(cov)
+        extra = acl_viol + chain_viol
+        # by now the proof stage has built EXTRA_TARGETS (corr/C08_Adapter_Corr.vo)
+        pv, pcov = eval_pipe(ctx_, pipe_state, any(v.get("found_input") for v in list(violations) + extra))
+        acl_cov.update(pcov)
         cov["acl_adapter_stream"] = acl_cov
-        return orig(ctx_, pinfo, cov, list(violations) + acl_viol, assumptions, **kw)
+        cov["pipeline_session_stream"] = chain_cov
+        return orig(ctx_, pinfo, cov, list(violations) + extra + pv, assumptions, **kw)
     common.finish = fin
     try:
         return common.run_case_check(ctx, sys.modules[__name__])
@@ -279,6 +603,10 @@ def replay(ctx, path):
     r = json.load(open(path))
     if r["replay"].get("acl_case"):
         ok, outs, _, log = common.run_go_cases(ctx, GO_ACL, [r["replay"]["acl_case"]], tag="replay")
+        print(json.dumps(outs, indent=1)[:4000])
+        return 0 if outs and outs[0].get("ok") else 1
+    if r["replay"].get("chain_case"):
+        ok, outs, _, log = common.run_go_cases(ctx, GO_CHAIN, [r["replay"]["chain_case"]], tag="replay")
         print(json.dumps(outs, indent=1)[:4000])
         return 0 if outs and outs[0].get("ok") else 1
     c = r["replay"].get("case")
